@@ -231,7 +231,8 @@ func (r *reader) read() (m Message, err error) {
 
 	//fmt.Println("expectChunk", r.expectChunk)
 
-	if r.expectChunk {
+	// chunks of unknown type are skipped until the next track chunk is found
+	for r.expectChunk && r.error == nil {
 		r.readChunk()
 	}
 
